@@ -136,9 +136,18 @@ def cli_runs(chk, exe):
                 cases.append((name, script, mk(sg, k, S2, P2), pairs, None))
     for bad in ["0x01", "0x01:0x02:0x03", "0x01:0x02,0x03", "0x0102,0x0304"]:
         cases.append(("malformed", b"\x51", [], [], bad))
+    # pair items are values like any other argument: digits are a script number (1234 is the bytes d2 04, not 12 34)
+    SN = G.scriptnum
+    for text, pairs in (("1234:5678", [(SN(1234), SN(5678))]), ("0x1234:5678", [(b"\x12\x34", SN(5678))]), ("1234:0x5678", [(SN(1234), b"\x56\x78")]), ("100000:7", [(SN(100000), SN(7))]),
+                        ("1234:5678,99:100", [(SN(1234), SN(5678)), (SN(99), SN(100))])):
+        for sg, k in ((SN(1234), SN(5678)), (b"\x12\x34", b"\x56\x78"), (b"\x12\x34", SN(5678)), (SN(1234), b"\x56\x78"), (SN(99), SN(100)), (SN(100000), SN(7))):
+            for name, script, mk in list(shapes())[:3] + list(shapes())[5:6]:
+                cases.append(("numtext:" + name, script, mk(sg, k, S2, P2), pairs, None, text))
     def do(i_case):
-        i, (name, script, stack, pairs, badtext) = i_case
+        i, case = i_case
+        name, script, stack, pairs, badtext = case[:5]
         text = badtext if badtext is not None else ",".join("%s:%s" % (hx0(a), hx0(b_)) for a, b_ in pairs)
+        if len(case) > 5: text = case[5]
         args = [exe] + (["--pretend-valid=" + text] if (text or badtext is not None) else []) + [hx0(script)] + [hx0(x) for x in stack]
         r = ptydrv.run_cli(args, stdin_tty=True)
         op = {"e": "Open", "id": "pc%d:%s" % (i, name), "cli": True, "script": script.hex(), "stack": [x.hex() for x in stack], "flags": STANDARD, "sigver": "BASE",
